@@ -171,6 +171,8 @@ func Run(bodies []func() any, prefix []int, stepTimeout time.Duration) (*Exec, e
 	defer func() { r.active = false; theRunner = nil }()
 	running := -1
 	lastSite := "start"
+	timer := time.NewTimer(stepTimeout)
+	defer timer.Stop()
 	isEnabled := func(i int) bool {
 		t := r.threads[i]
 		return !t.done && (t.cond == nil || t.cond())
@@ -231,6 +233,15 @@ func Run(bodies []func() any, prefix []int, stepTimeout time.Duration) (*Exec, e
 		r.current = running
 		r.threads[running].cond = nil
 		r.threads[running].resume <- struct{}{}
+		// one timer per execution, re-armed for every step (a time.After per step leaves millions of
+		// pending timers behind: they are only released when they fire)
+		if !timer.Stop() {
+			select {
+			case <-timer.C:
+			default:
+			}
+		}
+		timer.Reset(stepTimeout)
 		select {
 		case m := <-r.toSched:
 			if m.done {
@@ -239,7 +250,7 @@ func Run(bodies []func() any, prefix []int, stepTimeout time.Duration) (*Exec, e
 			} else {
 				lastSite = m.site
 			}
-		case <-time.After(stepTimeout):
+		case <-timer.C:
 			x.Hung = true
 			x.HungSite = lastSite
 			Tainted = true
